@@ -506,10 +506,162 @@ def check_C16(tier, seed):
     return out
 
 
+# ======================================================================================= C05
+def with_prec(g, name, tprec, tassoc, rprec=None):
+    rules = [(l, r, (rprec or {}).get(i, p)) for i, (l, r, p) in enumerate(g.rules)]
+    return gram.Grammar(name, g.nts, g.ts, g.root, rules, tprec, tassoc, g.tags)
+
+
+def check_C05(tier, seed):
+    out = Outcome()
+    rng = random.Random(seed)
+    L = 5 if tier == 'quick' else 7
+    entries = []
+    bases = catalogue('sr')
+    nassign = 0
+    for g in bases:
+        ops = [t for t in g.ts if t not in ('n', 'x', 'i')]
+        choices = [(p, a) for p in (0, 1, 2) for a in (0, 1, 2)]
+        combos = list(itertools.product(choices, repeat=len(ops)))
+        if tier == 'quick' and len(combos) > 30:
+            combos = rng.sample(combos, 30)
+        elif len(combos) > 250:
+            combos = rng.sample(combos, 250)
+        entries += entries_for(g, hosts=(0,), gen=True)
+        for ci, combo in enumerate(combos):
+            tp = {o: c[0] for o, c in zip(ops, combo)}
+            ta = {o: c[1] for o, c in zip(ops, combo)}
+            rp = None
+            if ci % 4 == 3:     # explicit rule precedences on some rules, including ones without any term
+                rp = {i: rng.choice([1, 2, 3]) for i in range(len(g.rules)) if rng.random() < 0.4}
+            g2 = with_prec(g, '%s_a%d' % (g.name, ci), tp, ta, rp)
+            try:
+                entries.append(pipeline.host_entry(g2, 0))
+                nassign += 1
+            except ValueError:
+                pass
+    # random ambiguous grammars with random precedence declarations
+    for i in range(20 if tier == 'quick' else 300):
+        g = gengram.random_grammar(rng, 'rp%d_%d' % (seed, i), n_nt=rng.choice([1, 2]), n_t=3, max_rhs=3, prec=True)
+        try:
+            entries.append(pipeline.host_entry(g, 0))
+        except ValueError:
+            pass
+    for e in entries:
+        pipeline.add_jobs(e, all_inputs(e.g, L if len(e.g.ts) <= 3 else L - 1, 400 if tier == 'quick' else 2500), verbose=True)
+        for s in gengram.sentences(e.g, rng, 3 if tier == 'quick' else 12, max_len=25 if tier == 'quick' else 80):
+            pipeline.add_jobs(e, [s], tag='s')
+    res, work = prun.run(entries, 'C05', design_L=None, do_product=True, product_depth=8 if tier == 'quick' else 10,
+                         tlc_procs=4 if tier == 'quick' else 8, tlc_workers=4 if tier == 'quick' else 2)
+    domain = {e.gid for e in entries if e.gid in res.conflicts and res.conflicts[e.gid]['rr'] == 0}
+    with_sr = {g for g in domain if res.conflicts[g]['n'] > 0}
+    judge_traces(out, entries, res, {'table', 'verdict', 'tree', 'step', 'functor'}, domain)
+    out.notes += ['static difference: %s %s' % (g, json.dumps(d['why'])) for g, d in list(res.static.items())[:10] if g in domain]
+    out.coverage = base_coverage(res, {
+        'grammars': len(entries), 'precedence_assignments': nassign, 'grammars_with_sr_conflicts_per_spec': len(with_sr),
+        'bounds': {'L_all_inputs': L, 'product_stack_depth': 8 if tier == 'quick' else 10},
+        'samples': sample_traces([e for e in entries if e.gid in with_sr], 3), 'exhaustive': False})
+    out.assumptions = std_assumptions() + ['resolution oracle = readme "Precedence and associativity summary" rules 1-4 (LR1!PreferReduce); '
+                                           'the API cannot distinguish an explicit rule precedence 0 from none (named deviation)']
+    return out
+
+
+# ======================================================================================= C11
+def run_diagcheck(entries, workname, tlc_procs=4, tlc_workers=2):
+    import diagparse
+    work = pipeline.run_harness(entries, workname)
+    live = [e for e in entries if e.dump is not None and e.diag is not None]
+    tasks = []
+    for ci, part in enumerate(pipeline.chunks(live, tlc_procs)):
+        env, _ = pipeline.tlc_inputs(part, work, 'diag%d' % ci, with_traces=False)
+        dp = os.path.join(work, 'diag%d.diags.ndjson' % ci)
+        vlib.write_ndjson(dp, [diagparse.to_ids(diagparse.parse(e.diag), e.dump) for e in part])
+        env['VERIF_DIAGS'] = dp
+        cfg = pipeline.write_cfg(work, 'diag%d' % ci, 'Spec', ['DiagReported', 'Summary'])
+        tasks.append((part, (lambda env=env, cfg=cfg, ci=ci: vlib.run_tlc('DiagCheck', cfg, env, '%s_diag%d' % (workname, ci), workers=tlc_workers, timeout=1500))))
+    outs = vlib.run_parallel([t[1] for t in tasks])
+    problems, sums, runs = {}, {}, []
+    st = tr = 0
+    for (part, _), r in zip(tasks, outs):
+        if r.exit != 0 or r.errors:
+            raise Infra('DiagCheck failed: %s\n%s' % (r.errors[:3], r.out[-3000:]))
+        st += r.distinct; tr += r.generated
+        runs.append({'kind': 'diag', 'grammars': len(part), 'distinct': r.distinct, 'generated': r.generated, 'wall_s': round(r.wall, 1)})
+        for d in r.lines.get('DIAG', []):
+            problems[d['g']] = d
+        for d in r.lines.get('DIAGSUM', []):
+            sums[d['g']] = d
+    return live, problems, sums, runs, st, tr
+
+
+def check_C11(tier, seed):
+    out = Outcome()
+    rng = random.Random(seed)
+    entries = []
+    for g in catalogue():
+        entries += entries_for(g, hosts=(0, 1, 2))
+    for g in catalogue('sr'):
+        ops = [t for t in g.ts if t not in ('n', 'x', 'i')]
+        choices = [(p, a) for p in (0, 1, 2) for a in (0, 1, 2)]
+        combos = list(itertools.product(choices, repeat=len(ops)))
+        combos = rng.sample(combos, min(len(combos), 12 if tier == 'quick' else 120))
+        for ci, combo in enumerate(combos):
+            g2 = with_prec(g, '%s_d%d' % (g.name, ci), {o: c[0] for o, c in zip(ops, combo)}, {o: c[1] for o, c in zip(ops, combo)})
+            entries += entries_for(g2, hosts=(0,), gen=(ci < 3))
+    for i in range(60 if tier == 'quick' else 800):
+        g = gengram.random_grammar(rng, 'rd%d_%d' % (seed, i), n_nt=rng.choice([1, 2, 3]), n_t=rng.choice([2, 3]), max_rhs=3, prec=bool(i % 2), error=(i % 5 == 0))
+        try:
+            entries.append(pipeline.host_entry(g, 1 if g.has_error() else 0))
+        except ValueError:
+            pass
+    small = gengram.small_grammars(stride=53 if tier == 'quick' else 7, limit=120 if tier == 'quick' else 2000, max_rules=3, max_rhs=2)
+    for g in small:
+        g.name = 'd' + g.name
+        try:
+            entries.append(pipeline.host_entry(g, 2))
+        except ValueError:
+            pass
+    live, problems, sums, runs, st, tr = run_diagcheck(entries, 'C11', tlc_procs=4 if tier == 'quick' else 8)
+    by_gid = {e.gid: e for e in live}
+    per = collections.Counter()
+    for gid, d in sorted(problems.items()):
+        e = by_gid[gid]
+        cls = d['why'][0]
+        per[(e.g.name.split('_d')[0], cls)] += 1
+        per[cls] += 1
+        if per[(e.g.name.split('_d')[0], cls)] > 1 or per[cls] > 4:
+            continue
+        out.violations.append({'summary': {'grammar': gid, 'rules': ['%s -> %s%s' % (l, ' '.join(r) or 'eps', ' [%d]' % p if p else '') for (l, r, p) in e.g.rules],
+                                           'tprec': e.g.tprec, 'tassoc': e.g.tassoc, 'problem': d['why']},
+                               'kind': 'diag', 'gname': e.g.name, 'mode': e.mode, 'gid': gid,
+                               'grammar': {'nts': e.g.nts, 'ts': e.g.ts, 'root': e.g.root, 'rules': e.g.rules, 'tprec': e.g.tprec, 'tassoc': e.g.tassoc}})
+    nconf = sum(1 for g, d in sums.items() if d['conflicts'] > 0)
+    nrr = sum(1 for g, d in sums.items() if d['rr'] > 0)
+    out.coverage = {'states': int(st), 'transitions': int(max(tr, 1)), 'traces_validated_against_impl': 0,
+                    'diagnostic_texts_checked': len(live), 'action_lines_checked': sum(d['lines'] for d in sums.values()),
+                    'grammars_with_conflicts_per_spec': nconf, 'grammars_with_rr_conflicts_per_spec': nrr,
+                    'grammars_without_conflicts_per_spec': len(sums) - nconf, 'tlc_runs': runs,
+                    'samples': [{'grammar': e.gid, 'rules': ['%s -> %s' % (l, ' '.join(r) or 'eps') for (l, r, _) in e.g.rules],
+                                 'diag_excerpt': [l for l in e.diag.split('\n') if 'CONFLICT' in l][:4]} for e in live if sums.get(e.gid, {}).get('conflicts', 0) > 0][:3],
+                    'exhaustive': False}
+    out.assumptions = ['TLC + JSON reader', 'tools/diagparse.py (line patterns only; names resolved through the parser\'s own name tables)',
+                       'the dumped table is the executed one (bound to executions by the trace validation of C01/C02/C05/C16)']
+    return out
+
+
 # ======================================================================================= replay
 def replay(pid, path):
     v = json.load(open(path))
     out = Outcome()
+    if v.get('kind') == 'diag':
+        gd = v['grammar']
+        g = gram.Grammar(v['gname'], gd['nts'], gd['ts'], gd['root'], [tuple(r) for r in gd['rules']], gd['tprec'], gd['tassoc'])
+        e = pipeline.gen_entry(g) if v['mode'] == 'gen' else pipeline.host_entry(g, int(v['mode'][4:]))
+        live, problems, sums, runs, st, tr = run_diagcheck([e], 'replay')
+        print('diagnostic problems:', json.dumps(list(problems.values()))[:600])
+        if problems:
+            out.violations.append(v)
+        return out
     if v.get('kind') == 'parser':
         gd = v['grammar']
         g = gram.Grammar(v['gname'], gd['nts'], gd['ts'], gd['root'], [tuple(r) for r in gd['rules']], gd['tprec'], gd['tassoc'])
